@@ -64,6 +64,8 @@ impl View for Fl { type V = real; uninterp spec fn view(&self) -> real; }
     w("pub uninterp spec fn eps_r() -> real;\n")
     w("pub uninterp spec fn is_finite_r(x: real) -> bool;\n")
     w("pub uninterp spec fn floor_r(x: real) -> int;\n")
+    # core library functions vstd has no specification for
+    w("pub assume_specification<T>[ Option::<T>::or ](a: Option<T>, b: Option<T>) -> (r: Option<T>) ensures r == (match a { Some(_) => a, None => b });\n")
     w("#[verifier::inline] pub open spec fn is_int_r(x: real) -> bool { floor_r(x) as real == x }\n")
     w("// a / b with the value at a == 0 made explicit (so that an absent (= zero) part divided by a scalar is zero without arithmetic reasoning)\n")
     w("#[verifier::inline] pub open spec fn rdiv(a: real, b: real) -> real { if a == 0real { 0real } else { a / b } }\n")
@@ -352,6 +354,7 @@ impl Mx {
     #[verifier::external_body] pub fn shape(&self) -> (r: (usize, usize)) ensures r.0 == self.nrows(), r.1 == self.ncols() { unimplemented!() }
     #[verifier::external_body] pub fn lin_ref(&self, k: usize) -> (r: &Sc) requires k < self.nrows() * self.ncols() ensures r@ == self.at(k as int % self.nrows(), k as int / self.nrows()) { unimplemented!() }
     #[verifier::external_body] pub fn to_strings(&self) -> (r: Strs) ensures r.src() == *self { unimplemented!() }
+    #[verifier::external_body] pub fn all_zero(&self) -> (r: bool) ensures r == (forall|i: int, j: int| #![trigger self.at(i, j)] self.at(i, j) == 0real) { unimplemented!() }
     #[verifier::external_body] pub fn column(&self, j: usize) -> (r: Mx) requires j < self.ncols() ensures r.nrows() == self.nrows(), r.ncols() == 1, forall|i: int| #![trigger r.at(i, 0)] r.at(i, 0) == self.at(i, j as int) { unimplemented!() }
     #[verifier::external_body] pub fn row(&self, i: usize) -> (r: Mx) requires i < self.nrows() ensures r.nrows() == 1, r.ncols() == self.ncols(), forall|j: int| #![trigger r.at(0, j)] r.at(0, j) == self.at(i as int, j) { unimplemented!() }
 }
